@@ -472,6 +472,67 @@ def run_case(sh, s, d, case):
     return (digest(kind, trace) if nt else None, {'seed': s, 'kind': kind, 'trace': trace[:30]})
 
 
+def crafted(sh, d, case):
+    """deterministic witnesses of the two known blob findings"""
+    import ZODB
+    import ZODB.MappingStorage
+    import ZODB.blob
+    import transaction
+    from ZODB.blob import Blob
+    from persistent.TimeStamp import TimeStamp
+    from zv import recfs, clock, objs
+    FSM = recfs.install()
+    recfs.LOG.enabled = False
+    clock.install(clock.FakeClock())
+    kind = case['kind']
+    blob_dir = os.path.join(d, 'blobs')
+    st = (FSM.FileStorage(os.path.join(d, 'Data.fs'), blob_dir=blob_dir) if kind == 'file'
+          else ZODB.blob.BlobStorage(blob_dir, ZODB.MappingStorage.MappingStorage()))
+    db = ZODB.DB(st)
+    tm = transaction.TransactionManager()
+    c = db.open(tm)
+    tm.begin()
+    c.root()['b'] = Blob(b'revision A')
+    tm.commit()
+    sh.count('quiescent_checks')
+    if case['crafted'] == 'savepoint-overwrite':
+        tm.begin()
+        with c.root()['b'].open('w') as f:
+            f.write(b'bytes at savepoint 0')
+        sp0 = tm.savepoint()
+        with c.root()['b'].open('w') as f:
+            f.write(b'bytes at savepoint 1')
+        tm.savepoint()
+        sp0.rollback()
+        with c.root()['b'].open('r') as f:
+            got = f.read()
+        tm.abort()
+        if got != b'bytes at savepoint 0':
+            sh.violation('c13:%s:blob-bytes-after-rollback-differ-from-savepoint:blob-stored-again-by-a-later-savepoint' % kind,
+                         {'crafted': True, 'got': got}, case)
+    else:
+        t1 = st.lastTransaction()
+        for data in (b'revision B', b'revision C'):
+            tm.begin()
+            with c.root()['b'].open('w') as f:
+                f.write(data)
+            tm.commit()
+        db.pack(TimeStamp(t1).timeTime() + 0.0005)
+        it = st.iterator()
+        missing = []
+        for t in it:
+            for r in t:
+                if r.data is not None and objs.decode_record(r.data)[0] is Blob:
+                    if not os.path.exists(st.fshelper.getBlobFilename(r.oid, t.tid)):
+                        missing.append((r.oid, t.tid))
+        if hasattr(it, 'close'):
+            it.close()
+        if missing:
+            sh.violation('c13:%s:committed-blob-revision-without-file' % kind, {'crafted': True, 'n': len(missing)}, case)
+    c.close()
+    db.close()
+
+
 def run_shard(params):
     logging.disable(logging.CRITICAL)
     sh = Shard(params)
@@ -492,5 +553,8 @@ def run_shard(params):
 def replay(case, scratch):
     logging.disable(logging.CRITICAL)
     sh = Shard({'scratch': scratch})
+    if case.get('crafted'):
+        guarded(sh, 'c13', case, lambda: crafted(sh, sh.fresh_dir('c13'), case))
+        return sh.violations
     guarded(sh, 'c13', case, lambda: run_case(sh, case['seed'], sh.fresh_dir('c13'), case))
     return sh.violations
